@@ -29,7 +29,7 @@ FUNCTIONS = {
       'context.ar.g_sets == old(context.ar.g_sets) + 1',
       'forall_ref(a, AsyncResult, implies(a != context.ar, a.g_sets == old(a.g_sets)), a.g_sets)',
     ],
-    modifies=['AsyncResult.g_sets', 'AsyncResult.g_value', 'AsyncResult.g_failed', 'Source.method', 'Source.service', 'Source.endpoint', 'Source.client_id', '$cls'], allocates=True,
+    modifies=['AsyncResult.g_sets', 'AsyncResult.value', 'AsyncResult.exception', 'AsyncResult.g_ready', 'Source.method', 'Source.service', 'Source.endpoint', 'Source.client_id', '$cls'], allocates=True,
     props=['C01'],
   ),
   # ---- deadline arithmetic
@@ -105,14 +105,20 @@ EXTERNS = {
   'AsyncResult.ContinueWith': dict(params=[('fn', 'any'), ('on_hub', 'bool')], returns='AsyncResult', fresh=True, allocates=True,
                                    notes='scales.asynchronous (C17): runs fn once when self completes'),
   'AsyncResult.Unwrap': dict(params=[], returns='AsyncResult', fresh=True, allocates=True, notes='scales.asynchronous (C17)'),
-  'AsyncResult.__init__': dict(params=[], returns='AsyncResult', fresh=True, allocates=True, modifies=['AsyncResult.g_sets'],
-                               ensures=['result.g_sets == 0', 'forall_ref(a, AsyncResult, implies(a != result, a.g_sets == old(a.g_sets)), a.g_sets)']),
-  'AsyncResult.set': dict(params=[('value', 'any')], modifies=['AsyncResult.g_sets', 'AsyncResult.g_value', 'AsyncResult.g_failed'],
-                          ensures=['self.g_sets == old(self.g_sets) + 1',
-                                   'forall_ref(a, AsyncResult, implies(a != self, a.g_sets == old(a.g_sets)), a.g_sets)']),
-  'AsyncResult.set_exception': dict(params=[('exc', 'any')], modifies=['AsyncResult.g_sets', 'AsyncResult.g_value', 'AsyncResult.g_failed'],
-                                    ensures=['self.g_sets == old(self.g_sets) + 1',
-                                             'forall_ref(a, AsyncResult, implies(a != self, a.g_sets == old(a.g_sets)), a.g_sets)']),
+  'AsyncResult.__init__': dict(params=[], returns='AsyncResult', fresh=True, allocates=True,
+                               modifies=['AsyncResult.g_sets', 'AsyncResult.g_ready', 'AsyncResult.exception', 'AsyncResult.value'],
+                               ensures=['result.g_sets == 0', 'not result.g_ready and result.exception is None',
+                                        'forall_ref(a, AsyncResult, implies(a != result, a.g_ready == old(a.g_ready) and a.exception == old(a.exception) and a.value == old(a.value)), a.g_ready)', 'forall_ref(a, AsyncResult, implies(a != result, a.g_sets == old(a.g_sets)), a.g_sets)']),
+  # gevent semantics: set()/set_exception() store the outcome (overwriting an earlier one) and mark ready
+  'AsyncResult.set': dict(params=[('value', 'any')],
+                          modifies=['AsyncResult.g_sets', 'AsyncResult.value', 'AsyncResult.exception', 'AsyncResult.g_ready'],
+                          ensures=['self.g_sets == old(self.g_sets) + 1', 'self.g_ready', 'self.value == value', 'self.exception is None',
+                                   'forall_ref(a, AsyncResult, implies(a != self, a.g_sets == old(a.g_sets) and a.g_ready == old(a.g_ready) and a.value == old(a.value) and a.exception == old(a.exception)), a.g_sets)']),
+  'AsyncResult.set_exception': dict(params=[('exc', 'any')],
+                                    modifies=['AsyncResult.g_sets', 'AsyncResult.value', 'AsyncResult.exception', 'AsyncResult.g_ready'],
+                                    ensures=['self.g_sets == old(self.g_sets) + 1', 'self.g_ready', 'self.exception == exc',
+                                             'forall_ref(a, AsyncResult, implies(a != self, a.g_sets == old(a.g_sets) and a.g_ready == old(a.g_ready) and a.value == old(a.value) and a.exception == old(a.exception)), a.g_sets)']),
+  'AsyncResult.successful': dict(params=[], returns='bool', ensures=['result == (self.g_ready and self.exception is None)']),
   'MethodCallMessage.__init__': dict(params=[('service', 'any'), ('method', 'any'), ('args', 'any'), ('kwargs', 'any')],
                                      returns='MethodCallMessage', fresh=True, allocates=True,
                                      ensures=['result.method == method and result.args == args and result.kwargs == kwargs', 'allocated(result.properties)']),
